@@ -22,7 +22,7 @@ BIG = {}          # thorough tier: larger bounds for exhaustive checking (set in
 
 def conn_cfg(spec, over=None, extra="", gen=True):
     c = dict(GOOD)
-    if spec == "GSpec":
+    if spec in ("GSpec", "PSpec"):
         c.update(BIG)
     c.update(over or {})
     txt = "SPECIFICATION %s\nCONSTANTS\n" % spec + "".join("  %s = %s\n" % kv for kv in sorted(c.items()))
@@ -46,6 +46,11 @@ def model_check(ctx):
     if r.coverage_zero:
         ctx.inconclusive("MqttConn: actions never taken: %s" % r.coverage_zero)
     ctx.log("MqttConn model checked: %d distinct states (%d generated)" % (r.distinct, r.generated))
+    # vacuity: the antecedents of the invariants / action properties are reachable (a probe that is never reached fails the post-condition)
+    ctx.tlc_mc("MqttConn_Gen", conn_cfg("PSpec", extra="VIEW gview\nACTION_CONSTRAINT ReachNote\nPOSTCONDITION AllReached\n"), workers=1, count=False,
+               label="reachability of the contract's antecedents", timeout=900)
+    ctx.tlc_mc("MqttWatch_Gen", watch_cfg("MCSpec", extra="CONSTRAINT WReachNote\nPOSTCONDITION WAllReached\n"), workers=1, count=False,
+               label="reachability of the watcher contract's antecedents")
     controls = [
         ({"GraceTicks": "2"}, "", "NoEarlyExpiry", "timer of one keep-alive period"),
         ({"Rearm": "FALSE"}, "", "NoEarlyExpiry", "timer armed once, not by every packet"),
